@@ -1339,6 +1339,8 @@ func main() {
 			decisionFunc("driver/netconf/capabilities.go", "Driver.determineVersion", "getNetconfPatterns"))
 		fmt.Fprintf(&sw, "(* channel/channel.go Channel.GetTimeout *)\nDefinition get_timeout_code : list dstmt :=\n  %s.\n",
 			decisionFunc("channel/channel.go", "Channel.GetTimeout"))
+		fmt.Fprintf(&sw, "(* driver/generic/sendwithcallbacks.go Callback.check *)\nDefinition callback_check_code : list dstmt :=\n  %s.\n",
+			decisionFunc("driver/generic/sendwithcallbacks.go", "Callback.check"))
 		sp := filepath.Join(filepath.Dir(*out), "GeneratedSkel.v")
 		olds, _ := os.ReadFile(sp)
 		if !bytes.Equal(olds, sw.Bytes()) {
